@@ -17,6 +17,7 @@ import (
 // ---------------------------------------------------------------------------------------------------------------
 
 func checkRotate(c *Ctx, r *Report) {
+	defer checkRotateWhole(c, r)
 	r.Rule("S-ROTATE", "GoImageLuminanceSource.RotateCounterClockwise writes new[y'*H + x'] = old[(top+x')*dataWidth + left+W-1-y'] for the W x H view and returns an H x W source whose dataWidth is H, dataHeight W and offsets 0: the index map of a counter-clockwise quarter turn, whose fourth power is the identity", 2)
 	key := "gozxing.GoImageLuminanceSource.RotateCounterClockwise"
 	fd, p := c.funcDeclOf("", "GoImageLuminanceSource.RotateCounterClockwise")
@@ -110,6 +111,7 @@ func checkRotate(c *Ctx, r *Report) {
 // ---------------------------------------------------------------------------------------------------------------
 
 func checkInvert(c *Ctx, r *Report) {
+	defer checkInvertWhole(c, r)
 	r.Rule("S-INVERT", "the inverting wrapper maps every byte v of the delegate's row / matrix to 255-v over the whole width / width*height; Invert() of an inverted source returns the delegate itself, and every other source's Invert() wraps the source itself in the inverting wrapper", 6)
 	for _, m := range []string{"GetRow", "GetMatrix"} {
 		key := "gozxing.InvertedLuminanceSource." + m
@@ -784,4 +786,253 @@ func checkYUVMirror(c *Ctx, r *Report) {
 		}
 	}
 	reportFold(r, c, "S-YUVMIRROR", key, fd.Pos(), bad)
+}
+
+// S-INVERTW: the inverting wrapper's GetRow and GetMatrix folded whole over a scripted delegate.
+func checkInvertWhole(c *Ctx, r *Report) {
+	if _, done := r.rules["S-INVERTW"]; done {
+		return
+	}
+	r.Rule("S-INVERTW", "InvertedLuminanceSource.GetRow and GetMatrix folded whole over delegates 3, 1, 8, 13 and 21 pixels wide and 2 high holding the bytes 0, 1, 127, 128, 254, 255 and others: every byte v of the delegate's row (both rows, with and without a buffer passed in) / of its matrix comes back as 255-v, a row of exactly the width and a matrix of exactly width*height bytes; the delegate's own matrix is not written", 10)
+	u8 := types.Typ[types.Uint8]
+	for _, W := range []int64{3, 1, 8, 13, 21} {
+		checkInvertWholeAt(c, r, W, u8)
+	}
+	r.DecidedByKeys("S-INVERT", "S-INVERTW", "every byte of a scripted delegate comes back as 255-v, over exactly the width / width*height", "InvertedLuminanceSource.GetRow", "InvertedLuminanceSource.GetMatrix")
+}
+
+func checkInvertWholeAt(c *Ctx, r *Report, W int64, u8 types.Type) {
+	const H = 2
+	base := []int64{0, 1, 127, 128, 254, 255}
+	pix := make([]int64, W*H)
+	for i := range pix {
+		pix[i] = base[i%6] ^ int64(i/6*37&0xff)
+	}
+	hooks := func(row *Val) *rpf {
+		h := &rpf{unroll: 64}
+		h.callHook = func(rr *rpf, call *ast.CallExpr, callee types.Object) (*Val, bool) {
+			fnc, ok := callee.(*types.Func)
+			if !ok {
+				return nil, false
+			}
+			switch fnc.Name() {
+			case "GetWidth":
+				return vint(W), true
+			case "GetHeight":
+				return vint(H), true
+			case "GetMatrix":
+				out := &Val{K: VList}
+				for _, v := range pix {
+					out.L = append(out.L, &Val{K: VInt, I: v, T: u8})
+				}
+				return out, true
+			}
+			return errCtorHook(rr, call, callee)
+		}
+		h.multiHook = func(call *ast.CallExpr, callee types.Object) ([]*Val, bool) {
+			if fnc, ok := callee.(*types.Func); ok && fnc.Name() == "GetRow" && len(call.Args) == 2 {
+				y := rpfCurrent.expr(call.Args[0])
+				if y.K != VInt || y.I < 0 || y.I >= H {
+					rpfFail("the delegate is asked for row %s", y)
+				}
+				out := &Val{K: VList, Local: true}
+				for x := int64(0); x < W; x++ {
+					out.L = append(out.L, &Val{K: VInt, I: pix[y.I*W+x], T: u8})
+				}
+				return []*Val{out, {K: VNil}}, true
+			}
+			return nil, false
+		}
+		return h
+	}
+	recv := func() *Val {
+		return &Val{K: VStruct, Ptr: true, Fields: map[string]*Val{"LuminanceSource": {K: VStruct, Ptr: true, Fields: map[string]*Val{}}}}
+	}
+	compare := func(got *Val, want []int64) string {
+		if got == nil || got.K != VList || len(got.L) != len(want) {
+			return fmt.Sprintf("the result is %s, expected %d bytes", got, len(want))
+		}
+		for i, e := range got.L {
+			if !e.isInt() || e.I&0xff != 255-want[i] {
+				return fmt.Sprintf("byte %d is %s, expected 255 - %d = %d", i, e, want[i], 255-want[i])
+			}
+		}
+		return ""
+	}
+	if fd, p := c.funcDeclOf("", "InvertedLuminanceSource.GetRow"); fd == nil {
+		r.AnchorLost("S-INVERTW", "gozxing.InvertedLuminanceSource.GetRow", "method not found")
+	} else {
+		key := fmt.Sprintf("gozxing.InvertedLuminanceSource.GetRow/whole(width %d)", W)
+		r.Analysed(key)
+		bad := ""
+		for y := int64(0); y < H && bad == ""; y++ {
+			for _, buf := range []*Val{{K: VNil}, nines(W)} {
+				h := hooks(nil)
+				h.env = map[types.Object]*Val{}
+				if ro := recvObj(p, fd); ro != nil {
+					h.env[ro] = recv()
+				}
+				res, err := c.rpfCall(fd, p, []*Val{vint(y), buf}, h)
+				if err != nil {
+					bad = "?" + err.Error()
+					break
+				}
+				if len(res) != 2 || res[1].K != VNil {
+					bad = fmt.Sprintf("GetRow(%d) returns an error although the delegate gave the row", y)
+					break
+				}
+				if why := compare(res[0], pix[y*W:(y+1)*W]); why != "" {
+					bad = fmt.Sprintf("GetRow(%d): %s", y, why)
+					break
+				}
+			}
+		}
+		reportFold(r, c, "S-INVERTW", key, fd.Pos(), bad)
+	}
+	if fd, p := c.funcDeclOf("", "InvertedLuminanceSource.GetMatrix"); fd == nil {
+		r.AnchorLost("S-INVERTW", "gozxing.InvertedLuminanceSource.GetMatrix", "method not found")
+	} else {
+		key := fmt.Sprintf("gozxing.InvertedLuminanceSource.GetMatrix/whole(width %d)", W)
+		r.Analysed(key)
+		bad := ""
+		h := hooks(nil)
+		h.env = map[types.Object]*Val{}
+		if ro := recvObj(p, fd); ro != nil {
+			h.env[ro] = recv()
+		}
+		res, err := c.rpfCall(fd, p, nil, h)
+		switch {
+		case err != nil:
+			bad = "?" + err.Error()
+		case len(res) != 1:
+			bad = "GetMatrix does not return one value"
+		default:
+			bad = compare(res[0], pix)
+		}
+		reportFold(r, c, "S-INVERTW", key, fd.Pos(), bad)
+	}
+}
+
+// S-ROTATEW: the quarter turn folded whole on a model view.
+func checkRotateWhole(c *Ctx, r *Report) {
+	if _, done := r.rules["S-ROTATEW"]; done {
+		return
+	}
+	r.Rule("S-ROTATEW", "GoImageLuminanceSource.RotateCounterClockwise folded whole on views of a 5x4 plane whose bytes are all different (the whole plane; the 3x2 view at (1,1); the 1x3 view at (4,0); the 4x1 view at (0,3)): the result is a source of height x width pixels with dataWidth = height, dataHeight = width and offsets 0 whose pixel (x', y') is pixel (width-1-y', x') of the view, in a plane of exactly width*height bytes; the original plane is not written", 4)
+	fd, p := c.funcDeclOf("", "GoImageLuminanceSource.RotateCounterClockwise")
+	if fd == nil {
+		r.AnchorLost("S-ROTATEW", "gozxing.GoImageLuminanceSource.RotateCounterClockwise", "method not found")
+		return
+	}
+	const DW, DH = 5, 4
+	u8 := types.Typ[types.Uint8]
+	for _, v := range [][4]int64{{0, 0, 5, 4}, {1, 1, 3, 2}, {4, 0, 1, 3}, {0, 3, 4, 1}} {
+		left, top, W, H := v[0], v[1], v[2], v[3]
+		key := fmt.Sprintf("gozxing.GoImageLuminanceSource.RotateCounterClockwise/whole(%d,%d,%dx%d)", left, top, W, H)
+		r.Analysed(key)
+		plane := &Val{K: VList}
+		for i := int64(0); i < DW*DH; i++ {
+			plane.L = append(plane.L, &Val{K: VInt, I: 10 + i, T: u8})
+		}
+		fields := map[string]*Val{"luminances": plane, "dataWidth": vint(DW), "dataHeight": vint(DH), "left": vint(left), "top": vint(top), "Width": vint(W), "Height": vint(H)}
+		h := &rpf{unroll: 64}
+		h.selHook = func(rr *rpf, sel *ast.SelectorExpr) (*Val, bool) {
+			if f, ok := fields[sel.Sel.Name]; ok {
+				// (a field of the receiver, reached directly or through the embedded sources)
+				if root := rootIdent(sel); root != nil && rr.p.TypesInfo.Uses[root] == recvObj(p, fd) {
+					return f, true
+				}
+			}
+			return nil, false
+		}
+		h.callHook = func(rr *rpf, call *ast.CallExpr, callee types.Object) (*Val, bool) {
+			if fnc, ok := callee.(*types.Func); ok {
+				if sel, isSel := call.Fun.(*ast.SelectorExpr); isSel {
+					if root := rootIdent(sel); root != nil && rr.p.TypesInfo.Uses[root] == recvObj(p, fd) {
+						switch fnc.Name() {
+						case "GetWidth":
+							return vint(W), true
+						case "GetHeight":
+							return vint(H), true
+						}
+					}
+				}
+			}
+			return errCtorHook(rr, call, callee)
+		}
+		h.env = map[types.Object]*Val{}
+		if ro := recvObj(p, fd); ro != nil {
+			h.env[ro] = &Val{K: VStruct, Ptr: true, Fields: map[string]*Val{}}
+		}
+		res, err := c.rpfCall(fd, p, nil, h)
+		bad := ""
+		field := func(v *Val, path ...string) *Val {
+			for _, n := range path {
+				if v == nil || v.K != VStruct {
+					return nil
+				}
+				v = v.Fields[n]
+			}
+			return v
+		}
+		isInt := func(v *Val, want int64) bool { return v != nil && v.isInt() && v.I == want }
+		switch {
+		case err != nil:
+			bad = "?" + err.Error()
+		case len(res) != 2 || res[1].K != VNil || res[0].K != VStruct:
+			bad = "the quarter turn does not return (source, nil)"
+		default:
+			src := field(res[0], "RGBLuminanceSource")
+			lum := field(src, "luminances")
+			switch {
+			case src == nil || lum == nil || lum.K != VList:
+				bad = "the result is not a GoImageLuminanceSource around an RGBLuminanceSource with a plane"
+			case !isInt(field(src, "LuminanceSourceBase", "Width"), H) || !isInt(field(src, "LuminanceSourceBase", "Height"), W):
+				bad = fmt.Sprintf("the rotated view must be %d x %d (dimensions swapped), got %s x %s", H, W, field(src, "LuminanceSourceBase", "Width"), field(src, "LuminanceSourceBase", "Height"))
+			case !isInt(field(src, "dataWidth"), H) || !isInt(field(src, "dataHeight"), W) || !isInt(field(src, "left"), 0) || !isInt(field(src, "top"), 0):
+				bad = fmt.Sprintf("the rotated source must have dataWidth %d, dataHeight %d and offsets 0; got %s, %s, (%s, %s)", H, W, field(src, "dataWidth"), field(src, "dataHeight"), field(src, "left"), field(src, "top"))
+			case int64(len(lum.L)) != W*H:
+				bad = fmt.Sprintf("the rotated plane has %d bytes, expected %d", len(lum.L), W*H)
+			default:
+				for yp := int64(0); yp < W && bad == ""; yp++ {
+					for xp := int64(0); xp < H; xp++ {
+						want := 10 + (top+xp)*DW + left + W - 1 - yp
+						if g := lum.L[yp*H+xp]; !g.isInt() || g.I != want {
+							bad = fmt.Sprintf("pixel (%d, %d) of the result is %s, expected pixel (%d, %d) of the view = %d", xp, yp, g, W-1-yp, xp, want)
+							break
+						}
+					}
+				}
+				for i := int64(0); i < DW*DH && bad == ""; i++ {
+					if !isInt(plane.L[i], 10+i) {
+						bad = fmt.Sprintf("byte %d of the original plane was written", i)
+					}
+				}
+			}
+		}
+		reportFold(r, c, "S-ROTATEW", key, fd.Pos(), bad)
+	}
+	r.DecidedBy("S-ROTATE", "S-ROTATEW", "the whole function folded on four views of a plane of distinct bytes: pixel map, coverage and the returned source's geometry")
+}
+
+// rootIdent gives the identifier a chain of selectors starts from (nil when it starts from something else).
+func rootIdent(e ast.Expr) *ast.Ident {
+	for {
+		switch x := ast.Unparen(e).(type) {
+		case *ast.SelectorExpr:
+			e = x.X
+		case *ast.Ident:
+			return x
+		default:
+			return nil
+		}
+	}
+}
+
+func nines(n int64) *Val {
+	out := &Val{K: VList, Local: true}
+	for i := int64(0); i < n; i++ {
+		out.L = append(out.L, vint(9))
+	}
+	return out
 }
